@@ -2,7 +2,8 @@
 // io.Writer.  One case = (content, delivery schedule, terminal error,
 // NameArguments) [+ what the generator knows: the expected snapshot, the cut
 // point, ...].  Emitted per case:
-//   scan id content sched final nameargs kind expect aux | snap writes suffix unread err reads oneshot
+//
+//	scan id content sched final nameargs kind expect aux | snap writes suffix unread err reads oneshot
 package main
 
 import (
@@ -192,10 +193,11 @@ func sameOutcome(a, b scanOut) bool {
 
 // emitScan runs the case and prints it.  kind/expect/aux are generator
 // knowledge passed through to the driver:
-//   kind=dump|race  expect=(gs ...) the snapshot the AST denotes, aux="pre,post" byte lengths around the dump
-//   kind=stream     aux = region list "start:end,..." of the generated dumps
-//   kind=cut        aux = cut offset into the uncut content carried in expect (hex)
-//   kind=junk|mutant|other
+//
+//	kind=dump|race  expect=(gs ...) the snapshot the AST denotes, aux="pre,post" byte lengths around the dump
+//	kind=stream     aux = region list "start:end,..." of the generated dumps
+//	kind=cut        aux = cut offset into the uncut content carried in expect (hex)
+//	kind=junk|mutant|other
 func emitScan(id string, content []byte, sched []schedStep, final string, nameArgs bool, kind, expect, aux string) {
 	o := runScan(content, sched, final, nameArgs)
 	// the same content delivered in one piece with EOF after the data
